@@ -94,6 +94,13 @@ type EmbeddedUnexported struct {
 	Label string `yaml:"label"`
 }
 
+// an embedded struct without a tag is an ordinary field keyed by its lower-cased type name; its
+// fields are not promoted into the enclosing mapping (yaml.v3 does the same)
+type EmbeddedUntagged struct {
+	Base
+	Label string `yaml:"label"`
+}
+
 type family struct {
 	name      string
 	typ       reflect.Type
@@ -113,6 +120,7 @@ var families = []family{
 	{"NoInline", reflect.TypeOf(NoInline{}), map[string]any{"x": "x", "ex": "ex", "z": "z", "": "empty", "extra": "e"}, false},
 	{"EmbeddedExported", reflect.TypeOf(EmbeddedExported{}), map[string]any{"name": "llama", "count": 3, "label": "drama", "extra": "e", "base": "b"}, true},
 	{"EmbeddedUnexported", reflect.TypeOf(EmbeddedUnexported{}), map[string]any{"name": "llama", "count": 3, "label": "drama", "extra": "e", "base": "b"}, true},
+	{"EmbeddedUntagged", reflect.TypeOf(EmbeddedUntagged{}), map[string]any{"base": map[string]any{"name": "inner", "count": 2}, "name": "not a field here", "count": 5, "label": "drama", "extra": "e"}, true},
 	{"InlineStruct", reflect.TypeOf(InlineStruct{}), map[string]any{"top": "t", "a": "str", "n": 7, "plain": "p", "extra": "e", "": "empty"}, false},
 }
 
@@ -135,8 +143,8 @@ func plan(t reflect.Type) (fields []fieldPlan, inline []int) {
 		if !f.IsExported() || len(f.Index) > 2 {
 			continue
 		}
-		if f.Anonymous && f.Type.Kind() == reflect.Struct {
-			continue // the embedded struct itself: reached through its promoted fields
+		if f.Anonymous && f.Type.Kind() == reflect.Struct && f.Tag.Get("yaml") == ",inline" {
+			continue // an inlined embedded struct: reached through its promoted fields
 		}
 		tag := f.Tag.Get("yaml")
 		if tag == "-" {
